@@ -486,3 +486,59 @@ def ob_string_annotated_factories(which: int, cached: bool) -> bool:
         return False
 
     return bool(SymLoop().run_until_complete(cyc()))
+
+
+# ----------------------------------------------------------------------------------------------- config-backed resources (ResourceConfig)
+import json as _json22  # noqa: E402
+import os as _os22  # noqa: E402
+
+from pydantic import BaseModel as _BM22  # noqa: E402
+
+from vlib.h_stores import TmpDir as _TmpDir22, pick_int as _pick22, untraced as _untraced22  # noqa: E402
+from workflows.resource import ResourceConfig as _ResourceConfig22  # noqa: E402
+
+
+class _Limits22(_BM22):
+    retries: int = 0
+    hosts: list = []
+
+
+@obligation(quick=90, thorough=200,
+            what="a config-backed resource (ResourceConfig: always cached) whose descriptor sits in the CLASS-level annotation and is therefore "
+                 "shared by every instance of the workflow class: each workflow instance (= each ResourceManager) gets ONE object of its own — "
+                 "the same object on every injection within the instance, a different object from the other instance's, with the file's "
+                 "values even after the other instance changed its copy",
+            bounds={"instances": 2, "injections per instance": "1..2", "path selector": "none / a key of the JSON map", "who resolves first": "both orders"})
+def ob_config_resource_per_instance(sel: bool, n1: int, n2: int, second_first: bool) -> bool:
+    """
+    pre: 1 <= n1 <= 2 and 1 <= n2 <= 2
+    post: _
+    """
+    n1, n2 = _pick22(n1, 1, 2), _pick22(n2, 1, 2)
+    sel, second_first = (True if sel else False), (True if second_first else False)
+    with _untraced22():
+        with _TmpDir22() as d:
+            path = _os22.path.join(d, "conf.json")
+            with open(path, "w") as f:
+                _json22.dump({"limits": {"retries": 3, "hosts": ["a"]}} if sel else {"retries": 3, "hosts": ["a"]}, f)
+            desc = _ResourceConfig22(path, "limits" if sel else None)
+            desc.set_type_annotation(_Limits22)
+            managers = [ResourceManager(), ResourceManager()]
+            order = [1, 0] if second_first else [0, 1]
+            got = {0: [], 1: []}
+
+            async def main() -> None:
+                for k in order:
+                    for _ in range(n1 if k == 0 else n2):
+                        got[k].append(await managers[k].get(desc))
+                    if k == order[0]:
+                        got[k][0].retries += 10           # the first instance works with ITS configuration object
+                        got[k][0].hosts.append("b")
+
+            SymLoop().run_until_complete(main())
+            first, second = got[order[0]], got[order[1]]
+            if any(x is not first[0] for x in first) or any(x is not second[0] for x in second):
+                return False                               # not one object per instance
+            if second[0] is first[0]:
+                return False                               # the instances share an object
+            return second[0].retries == 3 and second[0].hosts == ["a"] and first[0].retries == 13
